@@ -124,6 +124,11 @@ PrefixOK(bar, L) == IF PrefixMode = "script"
                          /\ LET p == Scripts[sid].ops[Len(circ) + 1] IN (p.b = 1) = bar /\ Range(p.loc) = L
                     ELSE IF Len(circ) >= Len(Prefix) THEN TRUE
                     ELSE Prefix[Len(circ) + 1][1] = bar /\ Prefix[Len(circ) + 1][2] = L
+\* the locations tried for the next operation ("script": only the script's next one, of any arity)
+ScriptNext(bar) == IF Len(circ) < Len(Scripts[sid].ops) /\ (Scripts[sid].ops[Len(circ) + 1].b = 1) = bar
+                   THEN {Range(Scripts[sid].ops[Len(circ) + 1].loc)} ELSE {}
+GateLocsNow == IF PrefixMode = "script" THEN ScriptNext(FALSE) ELSE GateLocs
+BarrierLocsNow == IF PrefixMode = "script" THEN ScriptNext(TRUE) ELSE BarrierLocs
 InOrder(o) == IF Len(circ) = 0 THEN TRUE
               ELSE LET p == circ[Len(circ)] IN IF o.cyc = p.cyc THEN o.loc[1] > p.loc[1] ELSE o.cyc > p.cyc
 
@@ -256,7 +261,7 @@ DirOK(L, gate, st) ==                                \* st = StageNow (computed 
 
 StepBarrier ==
   /\ phase = "scan" /\ Len(circ) < MaxOps
-  /\ \E st \in {StageNow} : \E L \in BarrierLocs :
+  /\ \E st \in {StageNow} : \E L \in BarrierLocsNow :
        /\ DirOK(L, FALSE, st) /\ PrefixOK(TRUE, L) /\ InOrder(NewOp(TRUE, L))
        /\ \E ord \in PermSeqs(Overlapping(L)) :
             \E R \in {BarrierResult(L, NewOp(TRUE, L), Len(circ) + 1, ord)} :
@@ -287,7 +292,7 @@ GateResult(L, o, i, ord) ==
 
 GateStep(wantNew) ==
   /\ phase = "scan" /\ Len(circ) < MaxOps
-  /\ \E st \in {StageNow} : \E L \in GateLocs :
+  /\ \E st \in {StageNow} : \E L \in GateLocsNow :
        /\ DirOK(L, TRUE, st) /\ PrefixOK(FALSE, L) /\ InOrder(NewOp(FALSE, L))
        /\ (\A b \in Overlapping(L) : ~CanAccommodate(bins[b], L)) = wantNew
        /\ \E ord \in PermSeqs(Overlapping(L)) :
